@@ -23,6 +23,7 @@ EXPLANATION = (
     "exactly one element per source element on every path (exceptional paths included), so positions are source positions. "
     "(ONCE) the per-unit constructor receives the element's own text field and nothing is yielded conditionally except "
     "blank RTF pages."
+    " (KIND) a sheet looked up by name in an openpyxl workbook may be a chart sheet: worksheet-only attributes are used only under a test of the sheet's kind. (PART) heading-section units of docx / doc / odt: the flush helper never leaves without a unit unless the collected text was tested to be empty, headings are recognised from style / outline fields and not from the wording, no paragraph is skipped on a predicate over its style name (three open known findings, pinned by the repository's own tests)."
 )
 NOT_DECIDED = ["that unit k holds the text of page k", "heading-section units of docx/doc/odt (text partition is value level)", "mbox message boundaries (regex semantics)",
                "legacy PPT slide lists: text-less slides are dropped when any slide has text (open known finding)"]
